@@ -321,6 +321,9 @@ func (e *Exec) unop(fr *frame, st *State, x *ssa.UnOp) bool {
 // wellTyped returns the facts that hold for any value of type t read from the heap or received
 // from outside: integer ranges, references allocated, slice shape.
 func (e *Exec) wellTyped(st *State, t types.Type, v Term) Term {
+	if _, ok := isVcSeq(t); ok {
+		return tTrue
+	}
 	switch t.Underlying().(type) {
 	case *types.Basic:
 		return rangeFact(t, v)
